@@ -18,7 +18,9 @@ import (
 	"github.com/markusressel/fan2go/internal/fans"
 	"github.com/markusressel/fan2go/internal/persistence"
 	"github.com/markusressel/fan2go/zverif/check"
+	"github.com/anishathalye/porcupine"
 	"github.com/markusressel/fan2go/zverif/kernel"
+	"github.com/markusressel/fan2go/zverif/stage"
 	"github.com/markusressel/fan2go/zverif/world"
 	bolt "go.etcd.io/bbolt"
 )
@@ -505,4 +507,174 @@ func runC14Crash(t *testing.T, sc *world.Scenario) *check.Result {
 	res.Nontrivial = res.Probes["crash-points-judged"] > 0
 	res.State(fmt.Sprintf("setup=%d last=%s:%s", nSetup, ops[len(ops)-1].Op, ops[len(ops)-1].Kind))
 	return res
+}
+
+// ---------------------------------------------------------------------------
+// c14sched: several simulated clients (stand-ins for the fan controllers of one
+// daemon) issue save/load/delete operations through the real persistence code
+// inside one bubble. The seam before every database open lets the seeded
+// scheduler interleave them; invoke/return are stamped with the kernel's
+// decision sequence numbers and the history is checked for linearizability per
+// (kind, fan id) register with porcupine.
+
+func init() {
+	register(&Family{Name: "c14sched", Gen: func(seed uint64, tier string) *world.Scenario {
+		sc, r := baseScenario("c14sched", seed)
+		sc.NoControllers, sc.NoMonitors = true, true
+		sc.Horizon = sec(600)
+		sc.Params["clients"] = float64(r.Range(2, 4))
+		sc.Params["ops"] = float64(r.Range(4, 10))
+		return sc
+	}, Run: runC14Sched})
+}
+
+type regInput struct {
+	op   int // 0 save, 1 load, 2 delete
+	data string
+}
+type regOutput struct {
+	data  string
+	found bool
+}
+
+var registerModel = porcupine.Model{
+	Init: func() interface{} { return "\x00absent" },
+	Step: func(state, input, output interface{}) (bool, interface{}) {
+		st := state.(string)
+		in := input.(regInput)
+		out := output.(regOutput)
+		switch in.op {
+		case 0:
+			return true, in.data
+		case 2:
+			return true, "\x00absent"
+		default:
+			if st == "\x00absent" {
+				return !out.found, st
+			}
+			return out.found && out.data == st, st
+		}
+	},
+	DescribeOperation: func(input, output interface{}) string {
+		in := input.(regInput)
+		out := output.(regOutput)
+		switch in.op {
+		case 0:
+			return "save(" + in.data + ")"
+		case 2:
+			return "delete"
+		}
+		if !out.found {
+			return "load -> not found"
+		}
+		return "load -> " + out.data
+	},
+}
+
+func runC14Sched(t *testing.T, sc *world.Scenario) *check.Result {
+	type opRec struct {
+		key string
+		porcupine.Operation
+	}
+	var hist []opRec
+	return runL1(t, sc, func(st *stage.Stage, res *check.Result) []Oracle {
+		st.HarnessDriven = true
+		st.OnBooted = func(st *stage.Stage) {
+			p := persistence.NewPersistence(st.W.DBPath())
+			nClients, nOps := int(sc.Params["clients"]), int(sc.Params["ops"])
+			left := nClients
+			for c := 0; c < nClients; c++ {
+				c := c
+				st.K.Go(fmt.Sprintf("client%d", c), func() {
+					r := kernel.NewRand(sc.Seed, fmt.Sprintf("c14sched.client%d", c))
+					for i := 0; i < nOps; i++ {
+						op := pOp{Kind: kernel.Pick(r, "curve", "map"), ID: c14IDs[r.Intn(2)]}
+						in := regInput{}
+						switch x := r.Intn(10); {
+						case x < 5:
+							op.Op, in.op = "save", 0
+							// unique values so that every read is attributable to one write
+							tag := c*1000 + i
+							if op.Kind == "curve" {
+								op.Data = map[int]float64{tag: float64(tag), 1: float64(r.Range(0, 9))}
+							} else {
+								op.Map = map[int]int{tag: tag % 256, 1: r.Range(0, 255)}
+							}
+							b, _ := json.Marshal(map[string]any{"d": op.Data, "m": op.Map})
+							in.data = string(b)
+						case x < 8:
+							op.Op, in.op = "load", 1
+						default:
+							op.Op, in.op = "delete", 2
+						}
+						st.K.Step(fmt.Sprintf("client%d.invoke", c))
+						call := st.K.Seq()
+						result, err := applyOp(p, st.W.DBPath(), op)
+						st.K.Step(fmt.Sprintf("client%d.return", c))
+						ret := st.K.Seq()
+						out := regOutput{}
+						if op.Op == "load" {
+							switch v := result.(type) {
+							case map[int]float64:
+								if err == nil {
+									b, _ := json.Marshal(map[string]any{"d": v, "m": map[int]int(nil)})
+									out = regOutput{string(b), true}
+								}
+							case map[int]int:
+								if err == nil {
+									b, _ := json.Marshal(map[string]any{"d": map[int]float64(nil), "m": v})
+									out = regOutput{string(b), true}
+								}
+							}
+							if err != nil && !errors.Is(err, os.ErrNotExist) {
+								res.Violate("C14", "load-error", "load-error sched", call, nil, "client %d: load of %s/%s failed: %v", c, op.Kind, op.ID, err)
+							}
+						} else if err != nil {
+							res.Violate("C14", op.Op+"-succeeds", op.Op+"-succeeds sched", call, nil, "client %d: %s %s/%s failed: %v", c, op.Op, op.Kind, op.ID, err)
+						}
+						hist = append(hist, opRec{key: op.Kind + "|" + op.ID, Operation: porcupine.Operation{ClientId: c, Input: in, Call: int64(call), Output: out, Return: int64(ret)}})
+						res.Probe("scheduled-ops")
+					}
+					left--
+					if left == 0 {
+						st.K.Stop()
+					}
+				})
+			}
+		}
+		return []Oracle{&c14SchedOracle{hist: func() map[string][]porcupine.Operation {
+			m := map[string][]porcupine.Operation{}
+			for _, h := range hist {
+				m[h.key] = append(m[h.key], h.Operation)
+			}
+			return m
+		}}}
+	})
+}
+
+type c14SchedOracle struct {
+	hist func() map[string][]porcupine.Operation
+}
+
+func (o *c14SchedOracle) OnEvent(ev *kernel.Event) {}
+func (o *c14SchedOracle) Finish(st *stage.Stage, res *check.Result) {
+	total := 0
+	for key, ops := range o.hist() {
+		total += len(ops)
+		r := porcupine.CheckOperationsTimeout(registerModel, ops, 20*time.Second)
+		switch r {
+		case porcupine.Illegal:
+			var desc []string
+			for _, op := range ops {
+				desc = append(desc, fmt.Sprintf("c%d[%d,%d] %s", op.ClientId, op.Call, op.Return, registerModel.DescribeOperation(op.Input, op.Output)))
+			}
+			res.Violate("C14", "linearizable", "linearizable "+key[:strings.IndexByte(key, '|')], 0, nil, "history of %s is not linearizable against a per-entry register: %s", key, strings.Join(desc, "; "))
+		case porcupine.Unknown:
+			res.Probe("linearizability-check-timed-out(inconclusive)")
+		default:
+			res.Probe("histories-linearizable")
+		}
+	}
+	res.Nontrivial = total > 4
+	res.State(fmt.Sprintf("clients=%v", st.Sc.Params["clients"]))
 }
